@@ -8,6 +8,6 @@ CONSTANTS
   MaxOps = 1000000000
 VIEW sview
 ACTION_CONSTRAINT GenLog
-INVARIANTS TypeOK NoDupNonce NoDupHash ReadyIsGapFree CountersExact NoStaleAfterBlock
+INVARIANTS TypeOK NoDupNonce NoDupHash ReadyIsGapFree CountersExact NoStaleAfterBlock BaseNonceSynced
 PROPERTIES ScanSyncs FullScanSyncsAll PutOutcome
 CHECK_DEADLOCK FALSE
